@@ -155,6 +155,10 @@ pub struct WriteCase {
     pub off: i32,
     /// 0 Seconds, 1 Centis, 2 Millis, 3 Micros, 4 Nanos
     pub prec: u8,
+    /// != 0: the value carries `Offset::Local` under an injected zone whose offset at this pinned
+    /// Unix time is `off`
+    #[serde(default)]
+    pub local_now: i64,
 }
 
 const PREC_DIGITS: [usize; 5] = [0, 2, 3, 6, 9];
@@ -176,7 +180,8 @@ impl Prop for Write {
     const BYTES: usize = 64;
     fn gen(u: &mut Unstructured<'_>) -> arbitrary::Result<WriteCase> {
         let i = Inst::from_i(gen::instant_y1_9999(u)?);
-        Ok(WriteCase { i, off: gen::offset_minutes(u)?, prec: u.below(5)? as u8 })
+        let local_now = if u.coin(1, 6)? { u.range_i64(-1_900_000_000, 2_100_000_000)? } else { 0 };
+        Ok(WriteCase { i, off: gen::offset_minutes(u)?, prec: u.below(5)? as u8, local_now })
     }
     fn check(c: &WriteCase, cx: &mut Cx) -> Verdict {
         if !c.i.valid() || c.off % 60 != 0 || c.off.abs() > 86_340 || c.prec > 4 {
@@ -199,7 +204,13 @@ impl Prop for Write {
         if fl.subsec != 0 {
             cx.label("non_zero_subsecond");
         }
-        let r = catch(|| mk_dt_off_any(c.i.i(), c.off).format_rfc3339(precision(c.prec)));
+        let use_local = c.local_now != 0 && local_now_ok(c.local_now);
+        if use_local {
+            cx.nt("offset_carried_as_Offset::Local");
+            pin_local(c.off, c.local_now);
+        }
+        let r = catch(|| if use_local { mk_dt_off_any(c.i.i(), 0).set_offset(Offset::Local).format_rfc3339(precision(c.prec)) } else { mk_dt_off_any(c.i.i(), c.off).format_rfc3339(precision(c.prec)) });
+        unpin_local();
         let s = match r {
             Ok(s) => s,
             Err(p) => return fail("c13.format_rfc3339_panic", "format_rfc3339 returns", p.short()),
